@@ -39,3 +39,40 @@ Theorem C01_x_kick_conserves :
     sumQ 0 (Z.to_nat (nb * n * n)) D.
 Proof. exact kick_x_conserves. Qed.
 Print Assumptions C01_x_kick_conserves.
+
+(** ** Fokker-Planck step (damping/diffusion), model of FokkerPlanckMap (Model/FokkerPlanck.v),
+    stencil arithmetic regenerated from the constructor on every run (Gen/Gen_FPStencil.v).
+    All statements hold in every field [K], for every damping decrement [e1], every grid
+    spacing [delta <> 0], every uniform axis [p (j+1) = p j + delta] (any [pmin]) and every
+    FPType [v] (0 none, 1 damping_only, 2 diffusion_only, 3 full). *)
+From Inovesa Require Import Gen.Gen_FPStencil Model.FokkerPlanck Proofs.FokkerPlanckP.
+
+(** column sums of the 3-point operator: the total weight with which input cell [k] of an energy
+    column enters the output column is one, for every interior [k] *)
+Theorem C01_fp3_column_sums :
+  forall (K : Fld) (e1 delta : K) (p : Z -> K) (v n le m k : Z),
+    n < 2 ^ 32 -> 2 <= k <= n - 3 -> uniform K delta p -> delta <> f0 ->
+    colw K 3 (H3 K e1 delta p v n le m) (fun _ => f1) n k = f1.
+Proof.
+  intros K e1 delta p v n le m k Hn Hk Hax Hd.
+  rewrite colw3_eval by assumption. exact (cw3_one K e1 delta p v k Hax Hd).
+Qed.
+Print Assumptions C01_fp3_column_sums.
+
+(** one energy column with interior support *)
+Theorem C01_fp3_conserves :
+  forall (K : Fld) (e1 delta : K) (p : Z -> K) (v n le m : Z) (r : Z -> K),
+    2 <= n < 2 ^ 32 -> supp r 2 (n - 2) -> uniform K delta p -> delta <> f0 ->
+    sumZ 0 (Z.to_nat n) (fp_col_out 3 (H3 K e1 delta p v n le m) r) = sumZ 0 (Z.to_nat n) r.
+Proof. exact fp3_moment0. Qed.
+Print Assumptions C01_fp3_conserves.
+
+(** the whole bunch-major array as FokkerPlanckMap::apply walks it: every column of every bunch *)
+Theorem C01_fp3_conserves_grid :
+  forall (K : Fld) (e1 delta : K) (p : Z -> K) (v n le m xs nb : Z) (D : Z -> K),
+    2 <= n < 2 ^ 32 -> 0 < xs -> 0 <= nb -> uniform K delta p -> delta <> f0 ->
+    (forall c, 0 <= c < nb * xs -> supp (fun s => D (c * n + s)) 2 (n - 2)) ->
+    sumZ 0 (Z.to_nat (nb * xs * n)) (fp_apply n xs 3 (H3 K e1 delta p v n le m) D) =
+    sumZ 0 (Z.to_nat (nb * xs * n)) D.
+Proof. exact fp3_conserves_grid. Qed.
+Print Assumptions C01_fp3_conserves_grid.
